@@ -43,6 +43,8 @@ type seqCfg struct {
 	Sizes   bool     `json:"sizes"` // log storage sizes / directory listing after GC
 	Cmp     bool     `json:"cmp"`   // 3-way bucket table comparison at reopen
 	Probe   string   `json:"probe"` // "" / "all": probe every key after every call; "end": only after the last call and at quiescent points
+	Init    []int    `json:"init"`  // contents the map starts with (continuations on an existing directory); value id per key, 0 = absent
+	Dir     string   `json:"dir"`   // existing directory to run in (not removed)
 }
 
 type seqOp struct {
@@ -385,14 +387,18 @@ func guarded(f func() error) (err error, panicked string) {
 }
 
 func (r *seqRun) run(base string) error {
-	d, err := os.MkdirTemp(base, "sq")
-	if err != nil {
-		return err
-	}
-	defer os.RemoveAll(d)
-	r.dir = filepath.Join(d, "s")
-	if err := os.MkdirAll(r.dir, 0o755); err != nil {
-		return err
+	if r.sc.Cfg.Dir != "" {
+		r.dir = r.sc.Cfg.Dir
+	} else {
+		d, err := os.MkdirTemp(base, "sq")
+		if err != nil {
+			return err
+		}
+		defer os.RemoveAll(d)
+		r.dir = filepath.Join(d, "s")
+		if err := os.MkdirAll(r.dir, 0o755); err != nil {
+			return err
+		}
 	}
 	if err := r.mkKeys(); err != nil {
 		return err
@@ -403,9 +409,18 @@ func (r *seqRun) run(base string) error {
 	for i, v := range c.Vals {
 		vlens[i] = len(valBytes(v, 1))
 	}
-	r.tr.Emit("reset", core.Ev{"nk": len(c.Keys), "vlens": vlens, "vals": c.Vals, "imm": c.Imm, "keys": c.Keys, "bits": c.Bits, "primary": c.Primary, "il": c.IL, "pl": c.PL})
+	init := c.Init
+	if init == nil {
+		init = make([]int, len(c.Keys))
+	}
+	r.tr.Emit("reset", core.Ev{"nk": len(c.Keys), "vlens": vlens, "vals": c.Vals, "imm": c.Imm, "keys": c.Keys, "bits": c.Bits, "primary": c.Primary, "il": c.IL, "pl": c.PL, "init": init})
+	var err error
 	r.st, err = openAt(r.dir, r.primaryType(), c.Imm, r.bits, r.il, r.pl)
 	if err != nil {
+		if c.Dir != "" {
+			r.tr.Emit("openfail", core.Ev{"err": err.Error()})
+			return nil
+		}
 		return fmt.Errorf("initial open: %w", err)
 	}
 	defer func() {
